@@ -562,7 +562,7 @@ class Data(Container, NetCDFHDF5, Files, core.Data):
                     first = type(self)(
                         np.ma.array(first, mask=mask[0]), units, calendar
                     ).datetime_array
-                except (ValueError, OverflowError, AttributeError):
+                except (ValueError, OverflowError, AttributeError, KeyError):
                     first = "??"
 
             out = f"{open_brackets}{first}{close_brackets}"
@@ -580,7 +580,7 @@ class Data(Container, NetCDFHDF5, Files, core.Data):
                         units,
                         calendar,
                     ).datetime_array
-                except (ValueError, OverflowError, AttributeError):
+                except (ValueError, OverflowError, AttributeError, KeyError):
                     first, last = ("??", "??")
 
             if size > 3:
@@ -599,7 +599,7 @@ class Data(Container, NetCDFHDF5, Files, core.Data):
                             units,
                             calendar,
                         ).datetime_array
-                    except (ValueError, OverflowError, AttributeError):
+                    except (ValueError, OverflowError, AttributeError, KeyError):
                         middle = "??"
 
                 out = (
